@@ -18,8 +18,6 @@ Record obs := mkObs {
   o_panic : bool; o_ret : bool; o_count : Z; o_has : bool; o_dec : option N;
   o_psidnil : bool; o_round : Z; o_cnts : list (N * Z) }.
 
-Inductive case := CSeq (n : nat) (steps : list (op * obs)).
-
 Definition optN_eqb (a b : option N) : bool :=
   match a, b with
   | None, None => true
@@ -46,23 +44,59 @@ Definition state_matches (s : voteset) (o : obs) : bool :=
   end &&
   (vs_round s =? o_round o) && cnts_match (vs_counters s) (o_cnts o).
 
-Fixpoint replay (s : voteset) (steps : list (op * obs)) : bool :=
-  match steps with
-  | [] => true
-  | (OAdd i v, o) :: r =>
+(* one observed operation: Some = next model state, None = model and observation differ *)
+Definition step_check (s : voteset) (st : op * obs) : option voteset :=
+  let (o_, o) := st in
+  match o_ with
+  | OAdd i v =>
       match add s i v with
-      | None => o_panic o && state_matches s o && replay s r
+      | None => if o_panic o && state_matches s o then Some s else None
       | Some (s', b) =>
-          negb (o_panic o) && Bool.eqb b (o_ret o) && state_matches s' o && replay s' r
+          if negb (o_panic o) && Bool.eqb b (o_ret o) && state_matches s' o then Some s' else None
       end
-  | (OQuery, o) :: r =>
+  | OQuery =>
       match query s with
-      | None => o_panic o && replay s r
-      | Some (s', _) => negb (o_panic o) && state_matches s' o && replay s' r
+      | None => if o_panic o then Some s else None
+      | Some (s', _) => if negb (o_panic o) && state_matches s' o then Some s' else None
       end
   end.
 
+Fixpoint replay (s : voteset) (steps : list (op * obs)) : option voteset :=
+  match steps with
+  | [] => Some s
+  | st :: r => match step_check s st with Some s' => replay s' r | None => None end
+  end.
+
+(* exhaustive enumeration: all continuations of a prefix, sharing prefixes *)
+Inductive tree := T (children : list (op * obs * tree)).
+
+Fixpoint replay_tree (s : voteset) (t : tree) : bool :=
+  match t with
+  | T ch => forallb (fun c => match step_check s (fst c) with
+                              | Some s' => replay_tree s' (snd c)
+                              | None => false
+                              end) ch
+  end.
+
+Inductive case :=
+| CSeq (n : nat) (steps : list (op * obs))
+| CTree (n : nat) (prefix : list (op * obs)) (t : tree).
+
 Definition check (c : case) : bool :=
-  match c with CSeq n steps => replay (init n) steps end.
+  match c with
+  | CSeq n steps => match replay (init n) steps with Some _ => true | None => false end
+  | CTree n prefix t =>
+      match replay (init n) prefix with Some s => replay_tree s t | None => false end
+  end.
 
 Definition mismatches (l : list case) : list nat := failing check l.
+
+(* compact constructors for the generated case files *)
+Definition Ad (i : nat) (d : N) (ts r : Z) : op := OAdd i (mkVote d ts 10 r 1).
+Definition Ad5 (i : nat) (d : N) (ts h r : Z) (t : N) : op := OAdd i (mkVote d ts h r t).
+Definition Qy : op := OQuery.
+Definition Ob (ret : bool) (count : Z) (has : bool) (dec : option N) (psidnil : bool) (round : Z)
+  (cnts : list (N * Z)) : obs := mkObs false ret count has dec psidnil round cnts.
+Definition ObP (count : Z) (has : bool) (dec : option N) (psidnil : bool) (round : Z)
+  (cnts : list (N * Z)) : obs := mkObs true false count has dec psidnil round cnts.
+Definition cn (d : N) (k : Z) : N * Z := (d, k).
